@@ -7,13 +7,78 @@ Open Scope Z_scope.
 (* ---- byte format ---- *)
 Definition field_ok (f : field) : Prop := (length (f_data f) <= 255)%nat.
 
+Lemma take_n_app : forall a b, take_n (length a) (a ++ b) = Some (a, b).
+Proof.
+  induction a as [|x a IH]; intros b; [reflexivity|].
+  cbn [length app take_n]. rewrite IH. reflexivity.
+Qed.
+
+Lemma parse_fields_enc : forall fs rest,
+    parse_fields (length fs) (enc_fields fs ++ rest) = Some (fs, rest).
+Proof.
+  induction fs as [|f fs IH]; intros rest; [reflexivity|].
+  unfold enc_fields in *. cbn [flat_map length].
+  unfold enc_field at 1. rewrite <- app_assoc. cbn [app parse_fields].
+  rewrite Nat2Z.id, take_n_app, IH.
+  destruct f; reflexivity.
+Qed.
+
+Lemma le_value_le_bytes : forall n v,
+    le_value (le_bytes n v) = v mod 256 ^ Z.of_nat n.
+Proof.
+  induction n as [|n IH]; intros v.
+  - cbn [le_bytes le_value]. change (256 ^ Z.of_nat 0) with 1. now rewrite Z.mod_1_r.
+  - cbn [le_bytes le_value]. rewrite IH, Nat2Z.inj_succ, Z.pow_succ_r by lia.
+    rewrite Z.rem_mul_r; [reflexivity|lia|]. apply Z.pow_pos_nonneg; lia.
+Qed.
+
+Lemma le_value_le_bytes4 : forall v, 0 <= v < 2 ^ 32 -> le_value (le_bytes 4 v) = v.
+Proof.
+  intros v Hv. rewrite le_value_le_bytes. change (256 ^ Z.of_nat 4) with (2 ^ 32).
+  now apply Z.mod_small.
+Qed.
+
+Lemma enc_frame_length : forall d, length (enc_frame d) = (8 + length d)%nat.
+Proof. intros d. reflexivity. Qed.
+
+Lemma parse_frames_enc : forall frames fuel,
+    Forall (fun fr => Z.of_nat (length fr) < 2 ^ 32) frames ->
+    (length (flat_map enc_frame frames) <= fuel)%nat ->
+    parse_frames fuel (flat_map enc_frame frames) = Some frames.
+Proof.
+  induction frames as [|d frames IH]; intros fuel HF Hfuel.
+  - destruct fuel; reflexivity.
+  - inversion HF as [|? ? Hd HF']; subst.
+    cbn [flat_map] in *. rewrite app_length, enc_frame_length in Hfuel.
+    destruct fuel as [|k]; [lia|].
+    unfold enc_frame at 1.
+    set (fld := mkField CODE_FRAMESIZE (le_bytes 4 (Z.of_nat (length d)))).
+    change (([SEC_FRAME; 1] ++ enc_field fld ++ d) ++ flat_map enc_frame frames)
+      with (SEC_FRAME :: 1 :: (enc_field fld ++ d) ++ flat_map enc_frame frames).
+    replace ((enc_field fld ++ d) ++ flat_map enc_frame frames)
+      with (enc_fields [fld] ++ (d ++ flat_map enc_frame frames)).
+    2:{ unfold enc_fields. cbn [flat_map]. now rewrite app_nil_r, app_assoc. }
+    cbn [parse_frames]. change (SEC_FRAME =? SEC_FRAME) with true. cbn [negb].
+    change (Z.to_nat 1) with (length [fld]). rewrite parse_fields_enc.
+    change (find_field CODE_FRAMESIZE [fld]) with (Some (le_bytes 4 (Z.of_nat (length d)))).
+    cbv iota beta.
+    rewrite le_value_le_bytes4 by lia. rewrite Nat2Z.id, take_n_app, IH; auto. lia.
+Qed.
+
 (* well-formed CPTR files parse back to exactly their header fields and frames, byte for
    byte, for all frame sizes below 2^32 (frame contents arbitrary) *)
 Theorem parse_roundtrip : forall hdr frames,
     (length hdr <= 255)%nat -> Forall field_ok hdr ->
     Forall (fun fr => Z.of_nat (length fr) < 2 ^ 32) frames ->
     parse_file (enc_file hdr frames) = Some (hdr, frames).
-Admitted.
+Proof.
+  intros hdr frames Hlen _ HF.
+  unfold enc_file, enc_header, CPTR_MAGIC. cbn [app].
+  unfold parse_file.
+  change (negb _) with false. cbv iota.
+  rewrite Z.mod_small by lia. rewrite Nat2Z.id, parse_fields_enc.
+  rewrite parse_frames_enc; auto.
+Qed.
 
 (* ---- transition system ---- *)
 Definition hand_list (h : option (buf * bool)) : list buf :=
@@ -29,6 +94,175 @@ Definition rhand_pending (s : wstate) : list bytes :=
 Definition reach (nbuf : nat) (input : list bytes) (sched : list wlabel) : wstate :=
   wrun nbuf (ws_init nbuf input) sched.
 
+(* ---- invariant ---- *)
+Record Inv (nbuf : nat) (input : list bytes) (s : wstate) : Prop := mkInv {
+  inv_perm : Permutation (ws_spent s ++ hand_list (ws_rhand s) ++ ws_queue s ++ hand_list (ws_whand s)) (seq 0 nbuf);
+  inv_open : ws_closed s = false ->
+    written s ++ whand_pending s ++ map (ws_contents s) (ws_queue s) ++ rhand_pending s ++ ws_input s = input;
+  inv_closed : ws_closed s = true ->
+    written s ++ whand_pending s ++ map (ws_contents s) (ws_queue s) = input /\
+    ws_input s = [] /\ exists b, ws_rhand s = Some (b, false);
+  inv_done : ws_done s = true ->
+    ws_closed s = true /\ ws_queue s = [] /\ ws_whand s = None /\ ws_cur s = []
+}.
+
+Lemma inv_init : forall nbuf input, Inv nbuf input (ws_init nbuf input).
+Proof.
+  intros nbuf input. split; unfold ws_init, written, whand_pending, rhand_pending; cbn.
+  - now rewrite app_nil_r.
+  - reflexivity.
+  - discriminate.
+  - discriminate.
+Qed.
+
+Lemma map_set_contents_notin : forall c b v q,
+    ~ In b q -> map (set_contents c b v) q = map c q.
+Proof.
+  intros c b v q Hn. apply map_ext_in. intros x Hx. unfold set_contents.
+  destruct (Nat.eqb_spec x b); [subst; contradiction|reflexivity].
+Qed.
+
+(* the buffer in the reader's hand is nowhere else *)
+Lemma rhand_fresh : forall nbuf sp b fl q wh,
+    Permutation (sp ++ hand_list (Some (b, fl)) ++ q ++ hand_list wh) (seq 0 nbuf) ->
+    ~ In b q /\ ~ In b (hand_list wh).
+Proof.
+  intros nbuf sp b fl q wh HP.
+  assert (ND : NoDup (sp ++ b :: q ++ hand_list wh)).
+  { apply (Permutation_NoDup (Permutation_sym HP)), seq_NoDup. }
+  apply NoDup_remove_2 in ND.
+  split; intros Hin; apply ND; rewrite !in_app_iff; auto.
+Qed.
+
+Lemma concat_snoc : forall (A : Type) (l : list (list A)) x, concat (l ++ [x]) = concat l ++ x.
+Proof. intros. rewrite concat_app. cbn. now rewrite app_nil_r. Qed.
+
+Lemma inv_step : forall nbuf input s l s',
+    Inv nbuf input s -> wstep nbuf s l = Some s' -> Inv nbuf input s'.
+Proof.
+  intros nbuf input s l s' [HP HO HC HD] Hstep.
+  destruct s as [inp sp q rh wh cl dn ct fl cu].
+  unfold written, whand_pending, rhand_pending in *.
+  cbn [ws_input ws_spent ws_queue ws_rhand ws_whand ws_closed ws_done ws_contents ws_files ws_cur] in *.
+  destruct l; unfold wstep in Hstep;
+  cbn [ws_input ws_spent ws_queue ws_rhand ws_whand ws_closed ws_done ws_contents ws_files ws_cur] in Hstep.
+  - (* RTake *)
+    destruct rh as [[? ?]|]; [discriminate|]. destruct sp as [|b r]; [discriminate|].
+    destruct cl; [discriminate|]. injection Hstep as <-.
+    split; unfold written, whand_pending, rhand_pending;
+    cbn [ws_input ws_spent ws_queue ws_rhand ws_whand ws_closed ws_done ws_contents ws_files ws_cur hand_list app] in *.
+    + rewrite <- HP. apply Permutation_sym, Permutation_middle.
+    + auto.
+    + discriminate.
+    + auto.
+  - (* RFill *)
+    destruct rh as [[b [|]]|]; try discriminate. destruct inp as [|f r]; [discriminate|].
+    injection Hstep as <-.
+    destruct (rhand_fresh _ _ _ _ _ _ HP) as [Hq Hw].
+    split; unfold written, whand_pending, rhand_pending;
+    cbn [ws_input ws_spent ws_queue ws_rhand ws_whand ws_closed ws_done ws_contents ws_files ws_cur hand_list app] in *.
+    + exact HP.
+    + intros Hcl. rewrite map_set_contents_notin by assumption.
+      rewrite <- (HO Hcl).
+      replace (set_contents ct b f b) with f by (unfold set_contents; now rewrite Nat.eqb_refl).
+      destruct wh as [[b' [|]]|]; cbn [hand_list] in *; try reflexivity.
+      replace (set_contents ct b f b') with (ct b'); [reflexivity|].
+      unfold set_contents. destruct (Nat.eqb_spec b' b); [subst; exfalso; apply Hw; now left|reflexivity].
+    + intros Hcl. destruct (HC Hcl) as (_ & Hi & _). discriminate.
+    + auto.
+  - (* REof *)
+    destruct rh as [[b [|]]|]; try discriminate. destruct inp as [|f r]; [|discriminate].
+    destruct cl; [discriminate|]. injection Hstep as <-.
+    destruct (rhand_fresh _ _ _ _ _ _ HP) as [Hq Hw].
+    split; unfold written, whand_pending, rhand_pending;
+    cbn [ws_input ws_spent ws_queue ws_rhand ws_whand ws_closed ws_done ws_contents ws_files ws_cur hand_list app] in *.
+    + exact HP.
+    + discriminate.
+    + intros _. split; [|split; [reflexivity|eauto]].
+      rewrite map_set_contents_notin by assumption.
+      rewrite <- (HO eq_refl), !app_nil_r.
+      destruct wh as [[b' [|]]|]; cbn [hand_list] in *; try reflexivity.
+      replace (set_contents ct b [] b') with (ct b'); [reflexivity|].
+      unfold set_contents. destruct (Nat.eqb_spec b' b); [subst; exfalso; apply Hw; now left|reflexivity].
+    + intros Hd. destruct (HD Hd) as [? _]. discriminate.
+  - (* RSend *)
+    destruct rh as [[b [|]]|]; try discriminate.
+    destruct (Nat.ltb (length q) nbuf); [|discriminate]. injection Hstep as <-.
+    split; unfold written, whand_pending, rhand_pending;
+    cbn [ws_input ws_spent ws_queue ws_rhand ws_whand ws_closed ws_done ws_contents ws_files ws_cur hand_list app] in *.
+    + rewrite <- HP. apply Permutation_app_head. rewrite <- app_assoc.
+      apply Permutation_sym, (Permutation_middle q (hand_list wh) b).
+    + intros Hcl. rewrite <- (HO Hcl), map_app, <- !app_assoc. reflexivity.
+    + intros Hcl. destruct (HC Hcl) as (_ & _ & b' & Hb'). discriminate.
+    + intros Hd. destruct (HD Hd) as (Hcl & _). destruct (HC Hcl) as (_ & _ & b' & Hb'). discriminate.
+  - (* WRecv *)
+    destruct wh as [[? ?]|]; [discriminate|]. destruct q as [|b r]; [discriminate|].
+    destruct dn; [discriminate|]. injection Hstep as <-.
+    split; unfold written, whand_pending, rhand_pending;
+    cbn [ws_input ws_spent ws_queue ws_rhand ws_whand ws_closed ws_done ws_contents ws_files ws_cur hand_list app map] in *.
+    + rewrite <- HP. rewrite app_nil_r.
+      apply Permutation_app_head, Permutation_app_head.
+      change (b :: r) with ([b] ++ r). apply Permutation_app_comm.
+    + exact HO.
+    + exact HC.
+    + discriminate.
+  - (* WWrite *)
+    destruct wh as [[b [|]]|]; try discriminate. injection Hstep as <-.
+    split; unfold written, whand_pending, rhand_pending;
+    cbn [ws_input ws_spent ws_queue ws_rhand ws_whand ws_closed ws_done ws_contents ws_files ws_cur hand_list app map] in *.
+    + exact HP.
+    + intros Hcl. rewrite <- (HO Hcl), <- !app_assoc. reflexivity.
+    + intros Hcl. destruct (HC Hcl) as (H1 & H2 & H3). split; [|auto].
+      rewrite <- H1, <- !app_assoc. reflexivity.
+    + intros Hd. destruct (HD Hd) as (_ & _ & ? & _). discriminate.
+  - (* WReturn *)
+    destruct wh as [[b [|]]|]; try discriminate.
+    destruct (Nat.ltb (length sp) nbuf); [|discriminate]. injection Hstep as <-.
+    split; unfold written, whand_pending, rhand_pending;
+    cbn [ws_input ws_spent ws_queue ws_rhand ws_whand ws_closed ws_done ws_contents ws_files ws_cur hand_list app map] in *.
+    + rewrite <- HP. rewrite app_nil_r, <- app_assoc.
+      apply Permutation_app_head.
+      rewrite (app_assoc (hand_list rh) q [b]). apply Permutation_app_comm.
+    + exact HO.
+    + exact HC.
+    + intros Hd. destruct (HD Hd) as (_ & _ & ? & _). discriminate.
+  - (* WRotate *)
+    destruct wh as [[? ?]|]; [discriminate|]. destruct dn; [discriminate|]. injection Hstep as <-.
+    split; unfold written, whand_pending, rhand_pending;
+    cbn [ws_input ws_spent ws_queue ws_rhand ws_whand ws_closed ws_done ws_contents ws_files ws_cur hand_list app map] in *.
+    + exact HP.
+    + intros Hcl. rewrite concat_snoc, app_nil_r. auto.
+    + intros Hcl. rewrite concat_snoc, app_nil_r. auto.
+    + discriminate.
+  - (* WFinish *)
+    destruct wh as [[? ?]|]; [discriminate|]. destruct q as [|? ?]; [|discriminate].
+    destruct cl; [|discriminate]. destruct dn; [discriminate|]. injection Hstep as <-.
+    split; unfold written, whand_pending, rhand_pending;
+    cbn [ws_input ws_spent ws_queue ws_rhand ws_whand ws_closed ws_done ws_contents ws_files ws_cur hand_list app map] in *.
+    + exact HP.
+    + discriminate.
+    + intros Hcl. rewrite concat_snoc, app_nil_r. auto.
+    + auto.
+Qed.
+
+Lemma inv_run : forall nbuf input sched s,
+    Inv nbuf input s -> Inv nbuf input (wrun nbuf s sched).
+Proof.
+  induction sched as [|l r IH]; intros s HI; cbn [wrun]; [exact HI|].
+  destruct (wstep nbuf s l) as [s'|] eqn:E; [|auto].
+  apply IH. eapply inv_step; eauto.
+Qed.
+
+Lemma inv_reach : forall nbuf input sched, Inv nbuf input (reach nbuf input sched).
+Proof. intros. apply inv_run, inv_init. Qed.
+
+Lemma inv_count : forall nbuf input s, Inv nbuf input s ->
+    (length (ws_spent s) + (length (hand_list (ws_rhand s)) + (length (ws_queue s) + length (hand_list (ws_whand s)))) = nbuf)%nat.
+Proof.
+  intros nbuf input s HI. pose proof (Permutation_length (inv_perm _ _ _ HI)) as HL.
+  rewrite !app_length, seq_length in HL. exact HL.
+Qed.
+
 (* ownership: in every reachable state (every schedule = every interleaving of reader and
    writer, every lag) each of the nbuf buffers is in exactly one of {spent channel, reader's
    hand, write queue, writer's hand}; in particular a recycled buffer never aliases a frame
@@ -37,7 +271,10 @@ Theorem ownership : forall nbuf input sched,
     let s := reach nbuf input sched in
     Permutation (ws_spent s ++ hand_list (ws_rhand s) ++ ws_queue s ++ hand_list (ws_whand s)) (seq 0 nbuf) /\
     (length (ws_queue s) <= nbuf)%nat.
-Admitted.
+Proof.
+  intros nbuf input sched s. pose proof (inv_reach nbuf input sched) as HI. fold s in HI.
+  split; [apply (inv_perm _ _ _ HI)|]. pose proof (inv_count _ _ _ HI). lia.
+Qed.
 
 (* conservation: what has reached the files, followed by what is in flight (in order),
    followed by what has not arrived yet, is exactly the input - every frame exactly once, in
@@ -46,7 +283,7 @@ Theorem conservation : forall nbuf input sched,
     let s := reach nbuf input sched in
     ws_closed s = false ->
     written s ++ whand_pending s ++ map (ws_contents s) (ws_queue s) ++ rhand_pending s ++ ws_input s = input.
-Admitted.
+Proof. intros nbuf input sched s. apply (inv_open _ _ _ (inv_reach nbuf input sched)). Qed.
 
 (* after the connection ended (reader saw EOF) nothing is lost either: the frames not yet
    written are still queued *)
@@ -54,7 +291,39 @@ Theorem conservation_closed : forall nbuf input sched,
     let s := reach nbuf input sched in
     ws_closed s = true ->
     written s ++ whand_pending s ++ map (ws_contents s) (ws_queue s) = input.
-Admitted.
+Proof.
+  intros nbuf input sched s Hcl.
+  apply (inv_closed _ _ _ (inv_reach nbuf input sched) Hcl).
+Qed.
+
+Lemma inv_quiescent : forall nbuf input s,
+    (1 <= nbuf)%nat -> Inv nbuf input s -> quiescent nbuf s = true ->
+    ws_done s = true /\ concat (ws_files s) = input /\ ws_cur s = [].
+Proof.
+  intros nbuf input s Hn HI HQ.
+  pose proof (inv_count _ _ _ HI) as HL.
+  destruct HI as [HP HO HC HD].
+  unfold quiescent, all_labels in HQ. cbn [forallb] in HQ.
+  rewrite !andb_true_iff in HQ.
+  destruct HQ as (QTake & QFill & QEof & QSend & QRecv & QWrite & QReturn & _ & QFinish & _).
+  destruct s as [inp sp q rh wh cl dn ct fl cu].
+  unfold written, whand_pending, rhand_pending, wstep in *.
+  cbn [ws_input ws_spent ws_queue ws_rhand ws_whand ws_closed ws_done ws_contents ws_files ws_cur] in *.
+  (* the writer's hand is empty *)
+  destruct wh as [[b [|]]|]; cbn [hand_list length] in HL.
+  { destruct (Nat.ltb_spec (length sp) nbuf); [discriminate|lia]. }
+  { discriminate. }
+  destruct dn.
+  - destruct (HD eq_refl) as (Hcl & Hq & _ & Hcu). subst.
+    destruct (HC eq_refl) as (HW & _). cbn [map] in HW. rewrite !app_nil_r in HW. auto.
+  - exfalso.
+    destruct q as [|b q]; [|discriminate].
+    destruct cl; [discriminate|].
+    destruct rh as [[b [|]]|]; cbn [hand_list length] in HL.
+    + destruct (Nat.ltb_spec (@length buf []) nbuf); [discriminate|]. cbn [length] in *. lia.
+    + destruct inp; discriminate.
+    + destruct sp; [cbn [length] in HL; lia|discriminate].
+Qed.
 
 (* flush: every maximal run ends with all frames in the files and the last file closed:
    a reachable state in which no step (other than a file rotation) is enabled has everything
@@ -64,7 +333,10 @@ Theorem flush : forall nbuf input sched,
     let s := reach nbuf input sched in
     quiescent nbuf s = true ->
     ws_done s = true /\ concat (ws_files s) = input /\ ws_cur s = [].
-Admitted.
+Proof.
+  intros nbuf input sched Hn s HQ.
+  exact (inv_quiescent nbuf input s Hn (inv_reach nbuf input sched) HQ).
+Qed.
 
 (* non-vacuity: 2 buffers, 5 frames, a schedule in which the writer lags *)
 Example writer_ex :
